@@ -1,5 +1,5 @@
 //@PROBE file=src/track.rs test=verif_probe_track_c11 clauses=C11/(track|merge) units=track_c11
-//@BOUND tracks with 0..3 feature classes; every presence pattern (both/dest/src/neither) per class; both history flags; every fault position (apply, attributes.merge, optimize#k)
+//@BOUND add_observation for an existing class, a class the track does not hold yet, and on an empty track; merge: tracks with 0..3 feature classes; every presence pattern (both/dest/src/neither) per class; both history flags; every fault position (apply, attributes.merge, optimize#k)
 #[cfg(test)]
 mod verif_probe_track_c11 {
     // Replay probe for C11 on the real Track: a 3-class mock with a programmable failing callback.
@@ -68,23 +68,25 @@ mod verif_probe_track_c11 {
     fn verif_probe_track_c11() {
         let mut failures: Vec<String> = vec![];
         // ---- add_observation: fault in apply / in optimize
+        for (have, cls) in [(vec![0u64, 1], 1u64), (vec![0, 1], 5), (vec![], 0), (vec![3], 2)] { // observation for an existing class / a class the track does not hold yet / an empty track
         for fail_apply in [false, true] {
             for fail_opt in [false, true] {
-                let (mut t, n) = mk(7, &[0, 1], vec![7, 3]);
+                let (mut t, n) = mk(7, &have, vec![7, 3]);
                 t.metric.calls = Arc::new(AtomicUsize::new(0));
                 t.metric.fail_at = if fail_opt { Some(0) } else { None };
                 let (a0, o0, m0, h0, n0) = (t.attributes.clone(), obs_view(&t), t.metric.st, t.merge_history.clone(), n.load(Ordering::SeqCst));
-                let r = t.add_observation(1, Some(5.0), None, Some(PUpd { fail: fail_apply }));
-                let ctx = format!("PROBE input: add_observation fail_apply={} fail_optimize={}", fail_apply, fail_opt);
+                let r = t.add_observation(cls, Some(5.0), None, Some(PUpd { fail: fail_apply }));
+                let ctx = format!("PROBE input: add_observation(class {}) on a track holding classes {:?} fail_apply={} fail_optimize={}", cls, have, fail_apply, fail_opt);
                 if r.is_err() {
                     if t.attributes != a0 { failures.push(format!("{}: attributes changed by a failed call", ctx)); }
-                    if obs_view(&t) != o0 { failures.push(format!("{}: observations changed by a failed call", ctx)); }
+                    if obs_view(&t) != o0 { failures.push(format!("{}: observations changed by a failed call: {:?}, were {:?}", ctx, obs_view(&t), o0)); }
                     if t.metric.st != m0 { failures.push(format!("{}: metric state changed by a failed call", ctx)); }
                     if n.load(Ordering::SeqCst) != n0 { failures.push(format!("{}: notification emitted by a failed call", ctx)); }
                 } else if n.load(Ordering::SeqCst) != n0 + 1 { failures.push(format!("{}: {} notifications for one successful change", ctx, n.load(Ordering::SeqCst) - n0)); }
                 if t.merge_history != h0 { failures.push(format!("{}: merge history changed by add_observation", ctx)); }
                 if r.is_err() != (fail_apply || fail_opt) { failures.push(format!("{}: wrong result {:?}", ctx, r.is_ok())); }
             }
+        }
         }
         // ---- merge: presence pattern per class (bit0 = in dest, bit1 = in src), k = 1..=3 classes, both flags,
         //      fault: none / attribute merge / optimize at invocation 0..k-1
